@@ -29,6 +29,20 @@ macro_rules! verdicts {
     };
 }
 
+/// every static row: (what, compiler's verdict, expected verdict, text)
+pub fn all_verdicts() -> Vec<(String, bool, bool, String)> {
+    let mut v = Vec::new();
+    for (ty, got, exp) in owned_lockable_verdicts() {
+        let detail = format!("the compiler {} `{}` as OwnedLockable (input of the constructors that skip the duplicate check), expected it to be {}", if got { "accepts" } else { "rejects" }, ty, if exp { "accepted" } else { "rejected" });
+        v.push((ty.to_string(), got, exp, detail));
+    }
+    for (what, got, exp) in constructor_verdicts() {
+        let detail = format!("`{}` is {} by the compiler, expected it to be {}: the constructors and conversions that skip the duplicate check must only take inputs that own their locks", what, if got { "accepted" } else { "rejected" }, if exp { "accepted" } else { "rejected" });
+        v.push((what, got, exp, detail));
+    }
+    v
+}
+
 /// (type, compiler's verdict, expected verdict)
 pub fn owned_lockable_verdicts() -> Vec<(&'static str, bool, bool)> {
     verdicts![
@@ -55,6 +69,15 @@ pub fn owned_lockable_verdicts() -> Vec<(&'static str, bool, bool)> {
         false: Node,
         false: CN,
         false: &'static CML,
+        // shared-ownership pointers: two clones reach the same lock
+        false: std::sync::Arc<M>,
+        false: std::rc::Rc<R>,
+        false: [std::sync::Arc<M>; 2],
+        false: Vec<std::sync::Arc<R>>,
+        false: (std::sync::Arc<M>, std::sync::Arc<M>),
+        false: &'static std::sync::Arc<M>,
+        false: Poisonable<std::sync::Arc<M>>,
+        false: BoxedLockCollection<Vec<std::sync::Arc<M>>>,
         // a mutable reference is only as owned as what it points to
         false: &'static mut &'static M,
         false: &'static mut [&'static M; 2],
@@ -83,4 +106,100 @@ pub fn owned_lockable_verdicts() -> Vec<(&'static str, bool, bool)> {
         true: OwnedLockCollection<Vec<M>>,
         true: Poisonable<OwnedLockCollection<Vec<M>>>,
     ]
+}
+
+// ---------------------------------------------------------------------------------------
+// which *constructors and conversions* the compiler accepts for inputs that merely refer to
+// locks. `Type::new(x)` resolves to the library's inherent constructor when its impl block's
+// bounds hold for the input type, and to the fallback trait below otherwise.
+
+pub struct Rejected;
+pub trait Verdict {
+    fn accepted(&self) -> bool;
+}
+impl Verdict for Rejected {
+    fn accepted(&self) -> bool {
+        false
+    }
+}
+macro_rules! accepted_types {
+    ($($t:ident),*) => { $( impl<X> Verdict for $t<X> { fn accepted(&self) -> bool { true } } )* };
+}
+accepted_types!(BoxedLockCollection, RetryingLockCollection, OwnedLockCollection);
+impl<X> Verdict for RefLockCollection<'_, X> {
+    fn accepted(&self) -> bool {
+        true
+    }
+}
+
+pub trait NewFallback<X>: Sized {
+    fn new(_: X) -> Rejected {
+        Rejected
+    }
+}
+impl<X> NewFallback<X> for BoxedLockCollection<X> {}
+impl<X> NewFallback<X> for RetryingLockCollection<X> {}
+impl<X> NewFallback<X> for OwnedLockCollection<X> {}
+pub trait NewOfRefFallback<'a, X: 'a>: Sized {
+    fn new(_: &'a X) -> Rejected {
+        Rejected
+    }
+}
+impl<'a, X: 'a> NewOfRefFallback<'a, X> for RefLockCollection<'a, X> {}
+pub trait NewRefFallback<'a, X: 'a>: Sized {
+    fn new_ref(_: &'a X) -> Rejected {
+        Rejected
+    }
+}
+impl<'a, X: 'a> NewRefFallback<'a, X> for BoxedLockCollection<&'a X> {}
+impl<'a, X: 'a> NewRefFallback<'a, X> for RetryingLockCollection<&'a X> {}
+
+fn leak_m(lid: usize) -> &'static M {
+    Box::leak(Box::new(M::new(crate::pay::Pay::new(lid, 0))))
+}
+
+/// (what, compiler's verdict, expected verdict)
+pub fn constructor_verdicts() -> Vec<(String, bool, bool)> {
+    #[allow(unused_imports)]
+    use crate::caps::BoundNo as _;
+    use crate::caps::bound;
+    let mut v: Vec<(String, bool, bool)> = Vec::new();
+    let m = leak_m(0);
+    type Refs = [&'static M; 2];
+    type VRefs = Vec<&'static M>;
+    let pair = || -> Refs { [m, m] };
+    let pair_static: &'static Refs = Box::leak(Box::new(pair()));
+    macro_rules! row {
+        ($what:expr, $got:expr, $exp:expr) => {
+            v.push(($what.to_string(), $got, $exp))
+        };
+    }
+    // the constructors that skip the duplicate check, given two references to one lock
+    row!("BoxedLockCollection::<[&M; 2]>::new", BoxedLockCollection::<Refs>::new(pair()).accepted(), false);
+    row!("RetryingLockCollection::<[&M; 2]>::new", RetryingLockCollection::<Refs>::new(pair()).accepted(), false);
+    row!("OwnedLockCollection::<[&M; 2]>::new", OwnedLockCollection::<Refs>::new(pair()).accepted(), false);
+    row!("RefLockCollection::<[&M; 2]>::new", RefLockCollection::<Refs>::new(pair_static).accepted(), false);
+    row!("BoxedLockCollection::<&[&M; 2]>::new_ref", BoxedLockCollection::<&'static Refs>::new_ref(pair_static).accepted(), false);
+    row!("RetryingLockCollection::<&[&M; 2]>::new_ref", RetryingLockCollection::<&'static Refs>::new_ref(pair_static).accepted(), false);
+    row!("BoxedLockCollection::<Vec<&M>>::new", BoxedLockCollection::<VRefs>::new(vec![m, m]).accepted(), false);
+    row!("RetryingLockCollection::<Vec<&M>>::new", RetryingLockCollection::<VRefs>::new(vec![m, m]).accepted(), false);
+    // conversions that build a collection without a check
+    row!("BoxedLockCollection<[&M; 2]>: From<[&M; 2]>", bound::<BoxedLockCollection<Refs>, Refs>().implements_from(), false);
+    row!("RetryingLockCollection<[&M; 2]>: From<[&M; 2]>", bound::<RetryingLockCollection<Refs>, Refs>().implements_from(), false);
+    row!("OwnedLockCollection<[&M; 2]>: From<[&M; 2]>", bound::<OwnedLockCollection<Refs>, Refs>().implements_from(), false);
+    row!("RefLockCollection<[&M; 2]>: From<&[&M; 2]>", bound::<RefLockCollection<'static, Refs>, &'static Refs>().implements_from(), false);
+    row!("BoxedLockCollection<Vec<&M>>: FromIterator<&M>", bound::<BoxedLockCollection<VRefs>, &'static M>().implements_from_iter(), false);
+    row!("RetryingLockCollection<Vec<&M>>: FromIterator<&M>", bound::<RetryingLockCollection<VRefs>, &'static M>().implements_from_iter(), false);
+    row!("OwnedLockCollection<Vec<&M>>: FromIterator<&M>", bound::<OwnedLockCollection<VRefs>, &'static M>().implements_from_iter(), false);
+    // positive controls: the same probes say yes for inputs that own their locks
+    let own = || -> [M; 2] { [M::new(crate::pay::Pay::new(0, 0)), M::new(crate::pay::Pay::new(1, 0))] };
+    row!("BoxedLockCollection::<[M; 2]>::new", BoxedLockCollection::<[M; 2]>::new(own()).accepted(), true);
+    row!("RetryingLockCollection::<[M; 2]>::new", RetryingLockCollection::<[M; 2]>::new(own()).accepted(), true);
+    row!("OwnedLockCollection::<[M; 2]>::new", OwnedLockCollection::<[M; 2]>::new(own()).accepted(), true);
+    let own_static: &'static [M; 2] = Box::leak(Box::new(own()));
+    row!("RefLockCollection::<[M; 2]>::new", RefLockCollection::<[M; 2]>::new(own_static).accepted(), true);
+    row!("BoxedLockCollection::<&[M; 2]>::new_ref", BoxedLockCollection::<&'static [M; 2]>::new_ref(own_static).accepted(), true);
+    row!("BoxedLockCollection<[M; 2]>: From<[M; 2]>", bound::<BoxedLockCollection<[M; 2]>, [M; 2]>().implements_from(), true);
+    row!("OwnedLockCollection<Vec<M>>: FromIterator<M>", bound::<OwnedLockCollection<Vec<M>>, M>().implements_from_iter(), true);
+    v
 }
